@@ -177,6 +177,48 @@ Theorem C19_length_delimited_frame_len :
 Proof. exact rd_poll_frame_len. Qed.
 Print Assumptions C19_length_delimited_frame_len.
 
+(* ---------------------------------------------------------------- message-based multistream (WebRTC) *)
+(* decode_multistream_message: the message handed to Message::decode is a slice of the payload and
+   the remainder is strictly shorter *)
+Theorem C19_webrtc_decode_slice :
+  forall data r rest, V.C03.Model.webrtc_decode1 data = Some (r, rest) ->
+  exists l tail, V.C03.Model.uvi_dec data = Some (l, tail) /\ l <= V.C03.Model.len tail /\
+    r = V.C03.Model.decode_msg (firstn (N.to_nat l) tail) /\ rest = skipn (N.to_nat l) tail /\
+    (length rest < length data)%nat /\ (length (firstn (N.to_nat l) tail) < length data)%nat.
+Proof. exact webrtc_decode1_spec. Qed.
+Print Assumptions C19_webrtc_decode_slice.
+
+(* every declared length that exceeds what is left is refused - including lengths within 10 of
+   2^64, for which an `offset + len` computed in usize would wrap *)
+Theorem C19_webrtc_truncated_rejected :
+  forall data l tail, V.C03.Model.uvi_dec data = Some (l, tail) -> V.C03.Model.len tail < l ->
+  V.C03.Model.webrtc_decode1 data = None.
+Proof. exact webrtc_decode1_truncated. Qed.
+Print Assumptions C19_webrtc_truncated_rejected.
+
+(* register_response: the loop over the payload never runs out of the fuel S |payload| *)
+Theorem C19_webrtc_dialer_fuel :
+  forall f1 f2 proto w rem, (length rem < f1)%nat -> (length rem < f2)%nat ->
+  V.C03.Model.webrtc_dialer_register f1 proto w rem = V.C03.Model.webrtc_dialer_register f2 proto w rem.
+Proof. exact webrtc_dialer_fuel. Qed.
+Print Assumptions C19_webrtc_dialer_fuel.
+
+Theorem C19_webrtc_listener_reply_bound :
+  forall names payload h,
+  wl_reply_len (wl_negotiate names payload h) <= N.max V.C03.Model.MAX_FRAME (blen payload).
+Proof. exact wl_negotiate_reply_bound. Qed.
+Print Assumptions C19_webrtc_listener_reply_bound.
+
+Theorem C19_alloc_webrtc_message :
+  forall data m rest, V.C03.Model.webrtc_decode1 data = Some (V.C03.Model.DOk m, rest) ->
+  match m with
+  | V.C03.Model.MProtos ps => (lsum (fun p => S (length p)) ps <= length data)%nat
+  | V.C03.Model.MProto p => (length p <= length data)%nat
+  | _ => True
+  end.
+Proof. exact webrtc_decode1_alloc. Qed.
+Print Assumptions C19_alloc_webrtc_message.
+
 (* ---------------------------------------------------------------- substream frame lengths *)
 Theorem C19_read_payload_size_ok :
   forall buf s n, read_payload_size buf = RpsOk s n -> s < 2 ^ 64 /\ 1 <= n /\ n <= 10.
@@ -304,3 +346,12 @@ Proof. exact recv_unbounded_without_limit. Qed.
 Example C19_ex_frame_rejected_before_alloc :
   recv_all (Some 64) [65; 1; 2; 3] = mkRecv [] [] SFail.
 Proof. vm_compute. reflexivity. Qed.
+
+(* a length prefix of 2^64-1 (usize::MAX), as first message and after a valid header: ParseError *)
+Example C19_ex_webrtc_extreme_length :
+  let big := [255; 255; 255; 255; 255; 255; 255; 255; 255; 1] in
+  let hdr := 19 :: V.C03.Model.MSG_HEADER in
+  wl_negotiate [[47; 97]] (big ++ [47; 97; 10]) false = V.C03.Model.WLErr 1 /\
+  wl_negotiate [[47; 97]] (hdr ++ big ++ [47; 97; 10]) false = V.C03.Model.WLErr 1 /\
+  run_regs [47; 97] false [hdr ++ big] = [11].
+Proof. repeat split; vm_compute; reflexivity. Qed.
